@@ -397,6 +397,101 @@ def handle(line: str) -> str:
             return "OK " + _json.dumps(out, ensure_ascii=True, sort_keys=True)
         except Exception as e:  # noqa
             return "BAD-REQUEST " + repr(e)
+    if cmd == "OBJ11":
+        # C11 oracle on the real objects: every node at any depth is frozen, slotted, holds immutable values only, hashes,
+        # equals an independently built copy (and hashes equal), and differs from nodes with another structure
+        try:
+            import dataclasses as _dc
+            import enum as _enum
+            import json as _json
+            from metasequoia_sql import SQLParser, SQLType
+            from metasequoia_sql.core import node as cnode
+            import pydump
+            dialect = words[1]
+            text = "".join(chr(int(w)) for w in words[2:])
+            try:
+                a = SQLParser.parse_statements(text, sql_type=SQLType[dialect])
+                b = SQLParser.parse_statements(text, sql_type=SQLType[dialect])
+            except Exception as e:  # noqa
+                return "PARSEERR " + err_name(e)
+            classes = {}
+            nodes = []
+            problems = []
+
+            def walk(v, path):
+                if len(problems) > 3:
+                    return
+                if _dc.is_dataclass(v) and not isinstance(v, type):
+                    nodes.append(v)
+                    classes[type(v).__name__] = classes.get(type(v).__name__, 0) + 1
+                    if not isinstance(v, cnode.ASTBase):
+                        problems.append("%s: node is not an ASTBase" % path)
+                    if hasattr(v, "__dict__"):
+                        problems.append("%s: instance has a __dict__" % path)
+                    for f in _dc.fields(v):
+                        x = getattr(v, f.name)
+                        for op in ("set", "del"):
+                            try:
+                                if op == "set":
+                                    setattr(v, f.name, x)
+                                else:
+                                    delattr(v, f.name)
+                                problems.append("%s.%s: %sattr did not raise" % (path, f.name, op))
+                                if op == "del":
+                                    object.__setattr__(v, f.name, x)
+                            except (_dc.FrozenInstanceError, AttributeError, TypeError):
+                                pass
+                        walk(x, path + "." + f.name)
+                    try:
+                        setattr(v, "zz_new_attribute", 1)
+                        problems.append("%s: a new attribute could be set" % path)
+                    except (_dc.FrozenInstanceError, AttributeError, TypeError):
+                        pass
+                elif isinstance(v, tuple):
+                    for i, x in enumerate(v):
+                        walk(x, "%s[%d]" % (path, i))
+                elif v is None or isinstance(v, (str, int, bool, _enum.Enum)):
+                    pass
+                else:
+                    problems.append("%s: mutable or unknown value of type %s" % (path, type(v).__name__))
+            for i, st in enumerate(a):
+                walk(st, "stmt%d" % i)
+            for n in nodes[:400]:
+                try:
+                    hash(n)
+                except TypeError:
+                    problems.append("unhashable node " + type(n).__name__)
+                    break
+            if len(a) != len(b):
+                problems.append("two parses of the same text differ in length")
+            for x, y in zip(a, b):
+                if x is y:
+                    continue
+                if not (x == y) or (x != y):
+                    problems.append("independently built equal trees are not ==")
+                try:
+                    if hash(x) != hash(y):
+                        problems.append("equal trees hash differently")
+                    if len({x, y}) != 1:
+                        problems.append("equal trees are two set members")
+                except TypeError:
+                    problems.append("unhashable statement")
+            # structural inequality: nodes compare equal iff their reflective dumps are equal
+            sample = nodes[:60]
+            dumps = [pydump.dump(n) for n in sample]
+            for i in range(len(sample)):
+                for j in range(i + 1, len(sample)):
+                    if (sample[i] == sample[j]) != (dumps[i] == dumps[j]):
+                        problems.append("== disagrees with structure for %s / %s" % (type(sample[i]).__name__, type(sample[j]).__name__))
+                        break
+                else:
+                    continue
+                break
+            if problems:
+                return "FAIL " + " ; ".join(problems[:4])
+            return "OK " + _json.dumps({"nodes": len(nodes), "classes": classes}, sort_keys=True)
+        except Exception as e:  # noqa
+            return "BAD-REQUEST " + repr(e)
     if cmd == "CURSOR":
         try:
             return run_cursor(words[1:])
